@@ -408,7 +408,7 @@ func (r *root18) fillHelm() {
 	if rng.Chance(35) {
 		more = append(more, r.spell(r.add(r.fname("hmore", ".yaml"), "replicas: 3\n")))
 	}
-	if exists && !filepath.IsAbs(home) && rng.Chance(15) {
+	if exists && !filepath.IsAbs(home) && !strings.HasPrefix(home, "..") && rng.Chance(15) {
 		// a values file INSIDE the chart home: it is copied before the home itself
 		values = filepath.Join(home, "app/values.yaml")
 		t.tag("helm:values-inside-home")
